@@ -117,6 +117,9 @@ def cases(thorough):
             yield dict(base, block="X", dx=1 / 4, resolution=3, direction="z", origin=origins[3], special=sp, vector_layer=True)
         for dtv in ("f4", "i8", "i4"):
             yield dict(base, block="X", dx=1.0, resolution=4, direction="z", origin=origins[0], dens_dtype=dtv)
+            # ... followed by float layers (scalar, vector) in the same call: every layer shows its own numbers
+            yield dict(base, block="X", dx=1.0, resolution=4, direction="z", origin=origins[0], dens_dtype=dtv, later_float_layer=True)
+            yield dict(base, block="X", dx=1.0, resolution=4, direction="z", origin=origins[0], dens_dtype=dtv, vector_layer=True, later_float_layer=True)
         # on-face block: origin exactly on the lattice
         for w in (1 / 4, 1.0):
             yield dict(base, block="F", dx=w, resolution=4, direction="z", origin=[0.5] * ndim)
@@ -218,6 +221,13 @@ def run_single(acc, idx, c, report=None):
             return "violation", True
         if str(vl.get("unit")) != str(mesh["velocity"].unit):
             acc.violation("C03:vector-layer-unit", idx, report, {"unit": str(vl.get("unit"))})
+    if c.get("later_float_layer"):
+        ml = p.layers[2 if c.get("vector_layer") else 1]
+        md, mm = np.ma.getdata(ml["data"]), np.ma.getmaskarray(ml["data"])
+        wantm = vals["mass"][np.where(inside, idxs, 0)]
+        if md.shape != (ny, nx) or np.any(mm[inside]) or not np.array_equal(md[inside], wantm[inside]):
+            acc.violation(f"C03:later-layer-does-not-show-its-own-values:{tag}", idx, report, {"got": np.ravel(md[inside])[:3].tolist(), "expected": np.ravel(wantm[inside])[:3].tolist()})
+            return "violation", True
     if str(lay.get("unit")) != str(mesh["density"].unit) or lay.get("name") != "density":
         acc.violation("C03:layer-unit-or-name", idx, report, {"unit": str(lay.get("unit")), "name": lay.get("name")})
         return "violation", True
